@@ -455,8 +455,13 @@ def runner_make_server(u: U):
         def freeze(self):
             log.append(("freeze",))
 
+        def cleanup(self):
+            log.append(("app.cleanup",))
+            return SAwait(name="app.cleanup")
+
     app = _App()
-    r = u.obj("AppRunner", {"_app": app, "_kwargs": {}, "_server": None, "_handle_signals": False},
+    r = u.obj("AppRunner", {"_app": app, "_kwargs": {}, "_server": None, "_handle_signals": False, "_sites": [],
+                            "_shutdown_timeout": 1.0},
               {"_make_request": lambda self, *a: None}, shared=False)
     mk = u.load(RUN, "AppRunner._make_server", globals={"Server": lambda *a, **k: "SERVER"})
     object.__getattribute__(r, "_o_methods")["_make_server"] = lambda self: mk(self)
@@ -475,6 +480,19 @@ def runner_make_server(u: U):
     else:
         u.check("C20.setup.failed_startup_not_frozen", "freeze" not in names and fields(r)["_server"] is None,
                 "failed startup: application not frozen, no server - cleanup() will exit the started contexts directly")
+        u.check("C20.setup.failure_is_the_startup_error", isinstance(out.exc, Boom), repr(out))
+        # the caller's (and run_app's) `finally: await runner.cleanup()` follows: over that whole history the
+        # application's cleanup - which exits every started context - runs exactly once
+        cs = u.load(RUN, "AppRunner._cleanup_server")
+        object.__getattribute__(r, "_o_methods")["_cleanup_server"] = lambda self: cs(self)
+        object.__getattribute__(r, "_o_methods")["shutdown"] = lambda self: SAwait(name="app.shutdown")
+        g = u.load(RUN, "BaseRunner.cleanup", globals={"asyncio": _asyncio})
+        u.loop(FN_RCLEAN, 0, unroll=True, bound=2)
+        out2 = u.call(g, r)
+        n = [e[0] for e in log].count("app.cleanup")
+        u.check("C20.setup.failed_setup_then_cleanup_exits_contexts_once", And(out2.ok, n == 1),
+                f"setup() failed in startup, then runner.cleanup(): Application.cleanup ran {n} time(s) - every started "
+                "context is exited exactly once, not by setup() and again by cleanup()")
 
 
 @unit("C20", "run_app", functions=[f"{WEB}:_run_app"])
